@@ -873,7 +873,10 @@ func (this *encodingTask) encode(res *encodingTaskResult) {
 	}
 
 	// Forward transform (ignore error, encode skipFlags)
-	_, postTransformLength, _ := t.Forward(data[0:this.blockLength], buffer)
+	// The output slice has the required size exactly: transforms that give up
+	// when the output gets too close to its end must not depend on how large
+	// a reused buffer happens to be (it varies with the number of jobs)
+	_, postTransformLength, _ := t.Forward(data[0:this.blockLength], buffer[0:requiredSize])
 	this.ctx["size"] = postTransformLength
 	dataSize := uint(1)
 
